@@ -3,7 +3,7 @@
     object_container_file_encoding/writer/mod.rs, tied to the crate by the correspondence run).
     [enc] is the block compressor (any function); the value serializer is the real [ser]. *)
 From Coq Require Import List NArith.
-Require Import Base Schema Sval Ser VectoredWrite Container FileSpec ContainerProofs.
+Require Import Base Schema Sval Ser VectoredWrite Container FileSpec ContainerProofs ContainerFinal.
 Import ListNotations.
 
 (* a value whose serialization fails contributes no bytes and no count: buffer, count, pending
@@ -35,15 +35,19 @@ Proof. exact wstep_ok_preserves_wrep. Qed.
 (* accounting over whole histories on a Vec sink: the data of the flushed blocks followed by the
    buffer is exactly the bytes contributed by the calls in order (a successful serialize: what ser
    appended; a push: its bytes; a failed serialize: nothing), and the counts add up *)
-Theorem C15_accounting : forall enc Sc approx sync vectored,
-  (forall root v st0 r s', ser Sc root v st0 = (Ok r, s') -> s_budget st0 = None ->
-                           exists w, s_out s' = s_out st0 ++ w) ->
-  forall ops hdr st blocks outs st',
+Theorem C15_accounting : forall enc Sc approx sync vectored ops hdr st blocks outs st',
   wrep enc sync hdr st blocks -> w_sched st = [] ->
   wrun enc Sc approx sync vectored st ops = (outs, st') ->
   Forall (fun r => fst r <> WRUnmodelled) outs ->
   ran enc Sc sync hdr st blocks ops outs st' /\ w_sched st' = [].
-Proof. exact wrun_accounting_vec. Qed.
+Proof. exact wrun_accounting_vec_real. Qed.
+
+(* the same for any sink and schedule over the histories in which every call returned Ok *)
+Theorem C15_accounting_any_sink : forall enc Sc approx sync vectored ops hdr st blocks outs st',
+  wrep enc sync hdr st blocks ->
+  wrun enc Sc approx sync vectored st ops = (outs, st') ->
+  Forall (fun r => fst r = WROk) outs -> ran enc Sc sync hdr st blocks ops outs st'.
+Proof. exact wrun_accounting_all_ok_real. Qed.
 
 (* after finish_block / into_inner / drop returning Ok nothing is left outside the blocks *)
 Theorem C15_flush : forall enc Sc approx sync vectored hdr st blocks op st',
@@ -53,11 +57,9 @@ Theorem C15_flush : forall enc Sc approx sync vectored hdr st blocks op st',
 Proof. exact wstep_finish_empties_tidy. Qed.
 
 (* the "previous block should always be flushed" assertion never fires *)
-Theorem C15_nopanic : forall enc Sc approx sync vectored,
-  (forall root v st0 s', ser Sc root v st0 <> (Panic PWriterBlockNotFlushed, s')) ->
-  forall ops st, winv st ->
+Theorem C15_nopanic : forall enc Sc approx sync vectored ops st, winv st ->
   ~ In (WRPanic PWriterBlockNotFlushed) (map fst (fst (wrun enc Sc approx sync vectored st ops))).
-Proof. exact wrun_no_block_panic. Qed.
+Proof. exact wrun_no_block_panic_real. Qed.
 
 (* with the null codec the sink is a file of the grammar: the independent reference parser reads
    back exactly the blocks *)
